@@ -19,14 +19,19 @@ RULE = ('Hypothesis documents (profile "full" with global comments before the he
         'encoding; frequencies sum to the listing and agree per encoding; get_metacomments == the "!!" lines in order, '
         'with key == those starting with "!!!key"; is_monophonic == (one **kern header and no chord and >=1 '
         'note/rest).  A second run uses degenerate documents (no barline, zero to two data rows, no null tokens in the '
-        'data rows, with or without a **kern spine).  Non-trivial: the document has a split and at least one global comment after the header.')
+        'data rows, with or without a **kern spine); a third one documents without any **kern spine whose notes live in '
+        '**root spines (next to **text / **dynam / **harm).  Non-trivial: the document has a split and at least one global comment after the header.')
 ASSUMPTIONS = ['kv/spine.py depth-first order', 'kv/cats.py closure',
                'a barline token is listed with its normalised encoding (type without measure number), see C03']
 
 
 @st.composite
-def cases(draw, degenerate=False):
-    if degenerate:
+def cases(draw, degenerate=False, kernless=False):
+    if kernless:
+        # no **kern spine at all, but notes all the same (a **root spine keeps NOTE_REST tokens): never monophonic
+        doc = draw(D.documents(D.profile('full', types=['**root', '**root', '**text', '**dynam', '**harm'], max_spines=3,
+                                         min_body=1, max_body=6, force_kern=False, hidden_bars=True)))
+    elif degenerate:
         # documents with (almost) no body: header, a few interpretation / comment rows, at most two data rows, no barline
         doc = draw(D.documents(D.profile('full', min_body=0, max_body=2, barlines=False, final_barline=False, max_spines=2,
                                          splits=False, partial_term=False, null_weight=0,
@@ -141,6 +146,7 @@ def run(ctx):
         ctx.check_all([{'doc': D.long_document(1150 + 29 * (ctx.seed % 9), ctx.seed), 'filters': [['CORE'], ['BARLINES', 'LYRICS']], 'shape': 'list'}], check)
     ctx.run_hypothesis(cases(), check, max_examples=250 if ctx.quick else 2000, label='queries')
     ctx.run_hypothesis(cases(degenerate=True), check, max_examples=60 if ctx.quick else 500, salt=1, label='degenerate-documents')
+    ctx.run_hypothesis(cases(kernless=True), check, max_examples=40 if ctx.quick else 400, salt=2, label='kernless-with-root-spine')
 
 
 def replay(case):
